@@ -200,6 +200,8 @@ pub struct Provided {
     pub passed: Option<u32>,
     /// express origin / passed_objects through the Performance setters instead of a Difficulty
     pub via_setters: bool,
+    /// (Difficulty route only) pass the Difficulty through its inspectable form first: 1 = inspect().into_difficulty(), 2 = Difficulty::from(InspectDifficulty)
+    pub via_inspect: u8,
 }
 
 impl Provided {
@@ -221,6 +223,11 @@ impl Provided {
             if let Some(p) = self.passed {
                 d = d.passed_objects(p);
             }
+            let d = match self.via_inspect {
+                1 => d.inspect().into_difficulty(),
+                2 => rosu_pp::Difficulty::from(d.inspect()),
+                _ => d,
+            };
             Performance::new(attrs).difficulty(d)
         };
         if let Some(v) = self.accuracy {
@@ -286,7 +293,7 @@ fn gen_provided(t: &mut Tape, shape: &Shape) -> Provided {
             Some(match t.weighted(&[8, 3, 1]) {
                 0 => t.float(0.0, 100.0),
                 1 => *t.pick(&[100.0, 0.0, 99.0, 95.5, 50.0, 33.333]),
-                _ => *t.pick(&[-5.0, 150.0, 1e9]),
+                _ => *t.pick(&[-5.0, 150.0, 1e9, f64::INFINITY, f64::NEG_INFINITY, f64::MAX, -1e300]),
             })
         } else {
             None
@@ -304,6 +311,7 @@ fn gen_provided(t: &mut Tape, shape: &Shape) -> Provided {
         worst_case: if t.chance(1, 2) { Some(t.coin()) } else { None },
         passed: if t.chance(1, 3) { Some(t.range(0, i64::from(n) + 2) as u32) } else { None },
         via_setters: t.coin(),
+        via_inspect: if t.chance(1, 3) { 1 + t.below(2) as u8 } else { 0 },
     }
 }
 
@@ -465,7 +473,7 @@ pub fn oracle(shape: &Shape, origin: Origin, p: &Provided, info: &mut CaseInfo) 
 fn provided_json(p: &Provided) -> Value {
     json!({"accuracy": p.accuracy.map(|a| format!("{a:?}")), "combo": p.combo, "misses": p.misses, "n300": p.n300, "n100": p.n100, "n50": p.n50,
            "n_katu": p.n_katu, "n_geki": p.n_geki, "large_tick_hits": p.large_tick_hits, "small_tick_hits": p.small_tick_hits,
-           "slider_end_hits": p.slider_end_hits, "worst_case": p.worst_case, "passed": p.passed, "via_setters": p.via_setters})
+           "slider_end_hits": p.slider_end_hits, "worst_case": p.worst_case, "passed": p.passed, "via_setters": p.via_setters, "via_inspect": p.via_inspect})
 }
 
 pub fn provided_from_json(v: &Value) -> Provided {
@@ -485,6 +493,7 @@ pub fn provided_from_json(v: &Value) -> Provided {
         worst_case: v.get("worst_case").and_then(Value::as_bool),
         passed: u("passed"),
         via_setters: v.get("via_setters").and_then(Value::as_bool).unwrap_or(false),
+        via_inspect: v.get("via_inspect").and_then(Value::as_u64).unwrap_or(0) as u8,
     }
 }
 
